@@ -95,6 +95,7 @@ cls(
         "g_remote_code": "int",  # its code
         "g_too_big": "bool",  # a message exceeded websocket_max_message_size
         "g_finished": "bool",  # the application has returned (app_send(None) was called)
+        "g_app_closed": "bool",  # the application has asked to close (websocket.close accepted for processing)
     },
     callbacks={
         "send": Callback(name="send", effect="yields", record="sent",
@@ -113,6 +114,10 @@ cls(
         ("WSStream.inv.connected", "implies(self.state == ASGIWebsocketState.CONNECTED, has(self, 'connection') and self.g_app_started and value_of(self, 'handshake').accepted)", "C10"),
         # once a message was too big the buffer stays over the limit (so nothing more is delivered)
         ("C10.too-big-sticks", "implies(self.g_too_big, self.buffer.length > self.buffer.max_length)", "C10"),
+        # C11 "1000 after its own close": what handle(StreamClosed) reports is decided from self.state,
+        # so from the moment the application's websocket.close is being processed -- across every
+        # suspension of that call -- the state must already say so (seeded/C11-ws-close-state-after-send)
+        ("C11.own-close-state", "implies(self.g_app_closed, self.state in (ASGIWebsocketState.CLOSED, ASGIWebsocketState.HTTPCLOSED))", "C11"),
         ("WSStream.inv.accepted-started", "implies(has(self, 'handshake') and value_of(self, 'handshake').accepted, self.g_app_started)", "C11"),
         ("WSStream.inv.accepted", "implies(has(self, 'handshake') and value_of(self, 'handshake').accepted, has(self, 'connection'))", "C04"),
         # the handshake and the scope were built from the same Request
@@ -148,11 +153,11 @@ fn(WS + ".handle",
    params={"event": "obj hypercorn.protocol.events:Request | obj hypercorn.protocol.events:Body | obj hypercorn.protocol.events:Data | obj hypercorn.protocol.events:EndBody | obj hypercorn.protocol.events:StreamClosed"},
    effect="yields", task="reader",
    modifies=["self.closed", "self.state", "self.scope", "self.start_time", "self.handshake", "self.app_put", "self.buffer", "self.connection", "self.g_app_started", "self.g_spawned", "self.g_access", "self.g_disc", "self.g_n_final", "self.g_n_end",
-             "self.g_remote_closed", "self.g_remote_code", "self.g_too_big", "self.g_finished"],
+             "self.g_remote_closed", "self.g_remote_code", "self.g_too_big", "self.g_finished", "self.g_app_closed"],
    requires=[
        ("ws.handle.pre.request-first", "iff(isinstance(event, Request), not has(self, 'scope')) and implies(not isinstance(event, Request), has(self, 'start_time') and has(self, 'handshake'))"),
        ("ws.handle.pre.fresh", "implies(isinstance(event, Request), not self.closed and not self.g_app_started and self.state == ASGIWebsocketState.HANDSHAKE "
-        "and self.g_n_final == 0 and self.g_n_end == 0 and self.g_disc == 0 and self.g_access == 0 and self.g_spawned == 0 and not self.g_too_big and not self.g_remote_closed)"),
+        "and self.g_n_final == 0 and self.g_n_end == 0 and self.g_disc == 0 and self.g_access == 0 and self.g_spawned == 0 and not self.g_too_big and not self.g_remote_closed and not self.g_app_closed)"),
        # H11Protocol builds a WSStream for HTTP/1.1 only when the request has Upgrade: websocket
        ("ws.handle.pre.h1-upgrade", "implies(isinstance(event, Request) and event.http_version == '1.1', has_header(event.headers, b'upgrade'))"),
    ],
@@ -185,7 +190,8 @@ fn(WS + ".app_send", params={"message": "none | msg(headers:short)"}, task="app"
    requires=[("ws.app_send.pre.started", "self.g_app_started"),
              # once the application has returned (StreamClosed was sent) the protocol has closed the stream
              ("ws.app_send.pre.finished-closed", "implies(self.g_finished, self.closed)")],
-   ghost_pre=["if message is None:\n    self.g_finished = True"],
+   ghost_pre=["if message is None:\n    self.g_finished = True",
+              "if message is not None:\n    self.g_app_closed = self.g_app_closed or (not self.closed and message['type'] == 'websocket.close' and self.state in (ASGIWebsocketState.HANDSHAKE, ASGIWebsocketState.CONNECTED))"],
    ensures=[
        ("C03.ws.noop-after-close", "implies(old(self.closed), n_emitted('sent') == 0 and n_emitted('ws') == 0 and n_emitted('puts') == 0)", "C03"),
        # C05: the application returned / raised
